@@ -40,7 +40,8 @@ PRELUDE_ORDER = [
     "90_elgamal_deps.rs",
 ]
 
-HEADER = """#![allow(unused_imports, unused_variables, unused_mut, non_snake_case, dead_code, unused_parens, unused_braces, non_camel_case_types, non_upper_case_globals, unreachable_code, unused_assignments, unused_must_use)]
+HEADER = """#![feature(allocator_api)]
+#![allow(unused_imports, unused_variables, unused_mut, non_snake_case, dead_code, unused_parens, unused_braces, non_camel_case_types, non_upper_case_globals, unreachable_code, unused_assignments, unused_must_use)]
 use vstd::prelude::*;
 verus! {
 """
